@@ -364,14 +364,104 @@ def r4_4(repo: Repo) -> RuleResult:
     return rr
 
 
-RULES = [r4_1, r4_2, r4_3, r4_4]
+# --------------------------------------------------------------------------- R4.5
+import copy as _copy
+
+
+class _Rename(ast.NodeTransformer):
+    def __init__(self, mapping):
+        self.mapping = mapping
+
+    def visit_Name(self, node):
+        if node.id in self.mapping:
+            return ast.copy_location(ast.Name(id=self.mapping[node.id], ctx=node.ctx), node)
+        return node
+
+    def visit_Attribute(self, node):
+        self.generic_visit(node)
+        if node.attr in self.mapping:
+            node.attr = self.mapping[node.attr]
+        return node
+
+
+def _norm_block(stmts, mapping) -> str:
+    return "\n".join(norm(_Rename(mapping).visit(_copy.deepcopy(s))) for s in stmts)
+
+
+def r4_5(repo: Repo) -> RuleResult:
+    rr = RuleResult("R4.5", "the hand-duplicated blocks of the accumulator (flush triggers, merge steps, buffer copies) agree with each other", floor=3)
+    # (a) coo_append: both flush triggers run the same sum / merge / grow sequence
+    f = repo.func(COO_FILE, "coo_append")
+    ifs = [n for n in f.node.body if isinstance(n, ast.If)]
+    if len(ifs) != 2:
+        raise AnalysisError("R4.5: coo_append no longer has its two flush triggers")
+    a, b = (_norm_block(i.body, {}) for i in ifs)
+    if a == b:
+        rr.ok(f, "flush triggers", "both triggers run: sum duplicates -> merge all (when the tail is short) -> grow (when >= 95% full)", ifs[0].lineno)
+    else:
+        rr.bad(f, "flush triggers", "the two flush triggers (sort limit reached / buffer full) no longer run the same sum-merge-grow sequence: "
+               "events can be dropped or the buffer not grown on one of them", ifs[1].lineno)
+    # the buffer-full trigger must fire one slot before the end (the append writes at ind, then increments)
+    t = norm(ifs[1].test)
+    if t.replace(" ", "") in ("coo.ind[0]==coo.key.shape[0]-1", "coo.ind[0]>=coo.key.shape[0]-1"):
+        rr.ok(f, "buffer-full trigger", "`%s`" % t, ifs[1].lineno)
+    else:
+        rr.bad(f, "buffer-full trigger", "buffer-full test is `%s`, not `coo.ind[0] == coo.key.shape[0] - 1`: the next append can write past the end" % t, ifs[1].lineno)
+    # (b) merge_sum_duplicates: the three accumulate-or-advance blocks are the same
+    f = repo.func(COO_FILE, "merge_sum_duplicates")
+    blocks = [n for n in ast.walk(f.node) if isinstance(n, ast.If) and "result_key[result_ptr]" in norm(n.test) and "coo.key[this_ptr]" in norm(n.test)]
+    if len(blocks) != 3:
+        raise AnalysisError("R4.5: expected 3 accumulate-or-advance blocks in merge_sum_duplicates, found %d" % len(blocks))
+    forms = {norm(x) for x in blocks}
+    if len(forms) == 1:
+        rr.ok(f, "accumulate-or-advance x3", "the three copies (merge loop, left tail, right tail) are identical", blocks[0].lineno)
+    else:
+        rr.bad(f, "accumulate-or-advance x3", "the three copies of the accumulate-or-advance step differ: an entry is summed into / written to the wrong slot on one of the paths", blocks[0].lineno)
+    # (c) coo_increase_mem: the four array copies follow one pattern and the tuple is rebuilt in field order
+    f = repo.func(COO_FILE, "coo_increase_mem")
+    groups = []
+    cur = None
+    for st in f.node.body:
+        if isinstance(st, ast.Assign) and norm(st.targets[0]) == "temp":
+            cur = [st]
+            groups.append(cur)
+        elif cur is not None and isinstance(st, ast.Assign):
+            cur.append(st)
+    pats = set()
+    for g in groups[:4]:
+        field = norm(g[0].value).split(".")[-1]
+        new = [x for x in g if isinstance(x.targets[0], ast.Name) and x.targets[0].id.startswith("new_") and x.targets[0].id != "new_size"]
+        if not new:
+            raise AnalysisError("R4.5: copy block for coo.%s not recognised" % field)
+        nm = new[0].targets[0].id
+        if nm != "new_" + field:
+            pats.add("MISNAMED %s for coo.%s" % (nm, field))
+        body = _norm_block([x for x in g if not (isinstance(x.value, ast.Call) and norm(x.value.func) == "np.zeros")], {nm: "NEW", field: "FIELD"})
+        pats.add(body)
+    ctor = [c for c in repo.calls_in(f) if norm(c.func) == "CooArray"]
+    fields = None
+    for n in repo.module(COO_FILE).tree.body:
+        if isinstance(n, ast.Assign) and norm(n.targets[0]) == "CooArray":
+            fields = [e.value for e in n.value.args[1].elts]
+    order_ok = bool(ctor) and fields is not None and all(
+        norm(a) in ("new_" + fld, "coo." + fld) for a, fld in zip(ctor[0].args, fields)
+    )
+    if len(pats) == 1 and order_ok:
+        rr.ok(f, "buffer copies", "row/col/val/key copied with one pattern; CooArray rebuilt in field order %s" % fields, f.node.lineno)
+    else:
+        rr.bad(f, "buffer copies", "the four buffer copies do not follow one pattern / the CooArray is not rebuilt in field order: %s"
+               % sorted(p[:60] for p in pats), f.node.lineno)
+    return rr
+
+
+RULES = [r4_1, r4_2, r4_3, r4_4, r4_5]
 
 CLAIM = (
     "R4.1 every call of a reallocate-and-return accumulator (coo_append) re-binds the result to the l-value it was "
     "called on; R4.2 the de-duplication key col + array_mul*row is injective (array_mul = n_windows*n_unique_tokens + c, "
     "c >= 0; col = context + i*n_unique_tokens) in all four build kernels (symbolic arithmetic); R4.3 worker chunks are "
     "exactly the generated boundary pairs and the boundaries are chained from 0 to len(data); R4.4 attribute-level "
-    "definite assignment along the fit / fit_transform helper sequences of each concrete class."
+    "definite assignment along the fit / fit_transform helper sequences of each concrete class; R4.5 the hand-duplicated blocks of coo_utils (two flush triggers, three accumulate-or-advance steps, four buffer copies) agree with each other."
 )
 NOT_DECIDED = (
     "that the merge/sort/grow arithmetic of coo_utils never overruns its buffers for all event volumes, and independence "
